@@ -5,7 +5,7 @@ Workload, faults and oracles: DESIGN section 3, C04.
 
 import math
 
-from .common import (BaseHooks, V, finite, fnum, is_qmat, key, logspace_sigma, np, qalg,
+from .common import (rand_clock, BaseHooks, V, finite, fnum, is_qmat, key, logspace_sigma, np, qalg,
                      round_sig, sub_rng)
 
 PROP = "C04"
@@ -162,7 +162,7 @@ def _solve_steps(steps, sysd, scale, tol, prec, cap, storage, jitter, R, tagx=No
     if R.random() < 0.15:
         # the solve runs under a clock script (stalled, jumping forwards / backwards, coarse): Q-GMRES
         # has no business reading the clock for a decision
-        call["clock"] = R.choice(CLOCKS)
+        call["clock"] = rand_clock(R)
     steps.append(call)
     return call
 
